@@ -111,13 +111,22 @@ Proof.
     replace (s ^ 2 - x ^ 2) with 1 by nra. reflexivity.
 Qed.
 
+Lemma ln_sqrt_half : forall a, 0 < a -> ln (sqrt a) = ln a / 2.
+Proof.
+  intros a Ha.
+  assert (Hs : 0 < sqrt a) by (apply sqrt_lt_R0; exact Ha).
+  assert (H : ln a = ln (sqrt a) + ln (sqrt a)).
+  { rewrite <- ln_mult by assumption. rewrite sqrt_sqrt by lra. reflexivity. }
+  lra.
+Qed.
+
 Lemma ln_deriv_form : forall a, 0 < a -> ln (1 / (sqrt a * a)) = - (3 / 2) * ln a.
 Proof.
   intros a Ha.
   assert (Hs : 0 < sqrt a) by (apply sqrt_lt_R0; exact Ha).
   unfold Rdiv. rewrite Rmult_1_l, ln_Rinv by (apply Rmult_lt_0_compat; assumption).
   rewrite ln_mult by assumption.
-  rewrite ln_sqrt by exact Ha. lra.
+  rewrite ln_sqrt_half by exact Ha. lra.
 Qed.
 
 Theorem asig_fldj_log_deriv : forall x,
